@@ -4,6 +4,7 @@ CONSTANTS
   MaxPieces = 0
   Full = FALSE
   Profiles = {}
+  L1Variant = "fixed"
 INVARIANT Verdicts
 POSTCONDITION Accepted
 CHECK_DEADLOCK FALSE
